@@ -33,6 +33,8 @@ CURATED_TEXT = {
 'create': "token A B C D Ws; skip Ws; start s; s: A <1 B C 1>bar D;",
 'create_nested': "token A B C D; start s; s: <1 A <2 B 2>inner C 1>outer D;",
 'create_seq': "token A B C D; start s; s: <1 A 1>p <2 B C 2>q D;",
+'create_twice': "token A B C; start s; s: <1 A 1>p 1>q B C;",
+'create_loop_inner': "token A B C; start s; s: <1 A (B <2 C 2>y 1>x)* C;",
 'create_opt': "token A B C D Ws; skip Ws; start s; s: x D; x: A <1 B [C 1>bc];",
 'create_loop': "token A B C D; start s; s: x D; x: <1 A (B 1>ab)* C;",
 'create_whole': "token A B C Ws; skip Ws; start s; s: x C; x^: A [B >];",
@@ -86,6 +88,10 @@ CURATED_TEXT = {
 # through, its emitted parser is explored like any other grammar
 NEAR_MISS_TEXT = {
 'nm_crossing': "token A B C; start s; s: <1 A <2 B 1>x 2>y C;",
+'nm_crossing_opt': "token A B C; start s; s: <1 A <2 B [C 1>x] 2>y;",
+'nm_crossing_loop': "token A B C; start s; s: <1 A <2 (B 2>y 1>x)* C;",
+'nm_crossing_after_loop': "token A B C; start s; s: <1 A <2 B (C 1>x)* 2>y;",
+'nm_crossing_alt': "token A B C; start s; s: <1 A (<2 B 1>x 2>y | C);",
 'nm_rec_noconsume': "token A B; start s; s: x B; x: [A] x | B;",
 'nm_indirect_leftrec': "token A B; start s; s: x; x: y A | B; y: x B | A;",
 'nm_mixed_assoc': "token N P H; right H; start s; s: e; e: e (P | H) e | N;",
